@@ -1241,6 +1241,8 @@ void SPxSolverBase<R>::setType(Type tp)
          sparsePricingFactor = base.sparsePricingFactor;
          fullPerturbation = base.fullPerturbation;
          printBasisMetric = base.printBasisMetric;
+         solvingForBoosted = base.solvingForBoosted;
+         storeBasisSimplexFreq = base.storeBasisSimplexFreq;
          unitVecs = base.unitVecs;
          primRhs = base.primRhs;
          primVec = base.primVec;
